@@ -17,9 +17,17 @@ pub trait V: BinarySerializer + BinaryDeserializer + Sized + 'static {
     fn gen(r: &mut Rng, d: u32) -> Self;
     /// model value text, elements in the order the serializer iterates them
     fn show(&self) -> String;
-    /// canonical text (sets and maps sorted by element text)
-    fn canon(&self) -> String {
+    /// canonical text (sets and maps sorted by element text); with `norm`, transient fields of
+    /// derived types are printed as their declared defaults (what a decode of this value must give)
+    fn canon_m(&self, _norm: bool) -> String {
         self.show()
+    }
+    fn canon(&self) -> String {
+        self.canon_m(false)
+    }
+    /// canonical text of the value a round trip must produce
+    fn expected(&self) -> String {
+        self.canon_m(true)
     }
     /// canonical text of a value printed by the model for this type
     fn canon_sexp(x: &Sexp) -> Option<String>;
@@ -35,9 +43,16 @@ pub trait V: BinarySerializer + BinaryDeserializer + Sized + 'static {
         true
     }
     /// can the generator produce values whose encoding fails (e.g. char >= U+10000)?
+    /// `other` is what decoding an encoding of `self` must look like
     fn deep_eq(&self, other: &Self) -> bool {
-        self.canon() == other.canon()
+        self.expected() == other.canon()
     }
+}
+
+/// derived types with `#[transient]` fields: the same value with those fields re-generated
+pub trait VaryTransient: Sized {
+    const HAS_TRANSIENT: bool;
+    fn vary_transient(&self, r: &mut Rng) -> Self;
 }
 
 fn int_canon(x: &Sexp) -> Option<String> {
@@ -414,6 +429,41 @@ impl V for desert::DeduplicatedString {
     }
 }
 
+/// `DeduplicatedString` has no Debug/Clone/Eq; the harness uses this transparent wrapper in
+/// generated declarations and containers (same codec, by delegation)
+#[derive(Debug, Clone, PartialEq, Eq, Hash, PartialOrd, Ord)]
+pub struct DStr(pub String);
+
+impl BinarySerializer for DStr {
+    fn serialize<O: desert::BinaryOutput>(&self, context: &mut desert::SerializationContext<O>) -> desert::Result<()> {
+        desert::DeduplicatedString(self.0.clone()).serialize(context)
+    }
+}
+
+impl BinaryDeserializer for DStr {
+    fn deserialize(context: &mut desert::DeserializationContext<'_>) -> desert::Result<Self> {
+        Ok(DStr(desert::DeduplicatedString::deserialize(context)?.0))
+    }
+}
+
+impl V for DStr {
+    fn ty() -> Option<String> {
+        Some("dstring".into())
+    }
+    fn gen(r: &mut Rng, d: u32) -> Self {
+        DStr(desert::DeduplicatedString::gen(r, d).0)
+    }
+    fn show(&self) -> String {
+        format!("(s {})", hex(self.0.as_bytes()))
+    }
+    fn canon_sexp(x: &Sexp) -> Option<String> {
+        tagged_hex(x, "s")
+    }
+    fn rust_name() -> String {
+        "DStr".into()
+    }
+}
+
 impl<T: V> V for Option<T> {
     fn ty() -> Option<String> {
         Some(format!("(opt {})", T::ty()?))
@@ -431,10 +481,10 @@ impl<T: V> V for Option<T> {
             Some(v) => format!("(S {})", v.show()),
         }
     }
-    fn canon(&self) -> String {
+    fn canon_m(&self, n: bool) -> String {
         match self {
             None => "N".into(),
-            Some(v) => format!("(S {})", v.canon()),
+            Some(v) => format!("(S {})", v.canon_m(n)),
         }
     }
     fn canon_sexp(x: &Sexp) -> Option<String> {
@@ -473,10 +523,10 @@ impl<A: V, E: V> V for Result<A, E> {
             Err(v) => format!("(E {})", v.show()),
         }
     }
-    fn canon(&self) -> String {
+    fn canon_m(&self, n: bool) -> String {
         match self {
-            Ok(v) => format!("(O {})", v.canon()),
-            Err(v) => format!("(E {})", v.canon()),
+            Ok(v) => format!("(O {})", v.canon_m(n)),
+            Err(v) => format!("(E {})", v.canon_m(n)),
         }
     }
     fn canon_sexp(x: &Sexp) -> Option<String> {
@@ -570,11 +620,11 @@ impl<T: V> V for Vec<T> {
             list_text(self.iter().map(|x| x.show()))
         }
     }
-    fn canon(&self) -> String {
+    fn canon_m(&self, n: bool) -> String {
         if is_u8::<T>() {
             self.show()
         } else {
-            list_text(self.iter().map(|x| x.canon()))
+            list_text(self.iter().map(|x| x.canon_m(n)))
         }
     }
     fn canon_sexp(x: &Sexp) -> Option<String> {
@@ -614,11 +664,11 @@ impl<T: V, const N: usize> V for [T; N] {
             list_text(self.iter().map(|x| x.show()))
         }
     }
-    fn canon(&self) -> String {
+    fn canon_m(&self, n: bool) -> String {
         if is_u8::<T>() {
             self.show()
         } else {
-            list_text(self.iter().map(|x| x.canon()))
+            list_text(self.iter().map(|x| x.canon_m(n)))
         }
     }
     fn canon_sexp(x: &Sexp) -> Option<String> {
@@ -647,8 +697,8 @@ impl<T: V + Eq + std::hash::Hash> V for LinkedList<T> {
     fn show(&self) -> String {
         list_text(self.iter().map(|x| x.show()))
     }
-    fn canon(&self) -> String {
-        list_text(self.iter().map(|x| x.canon()))
+    fn canon_m(&self, n: bool) -> String {
+        list_text(self.iter().map(|x| x.canon_m(n)))
     }
     fn canon_sexp(x: &Sexp) -> Option<String> {
         Some(list_text(canon_items::<T>(x)?.into_iter()))
@@ -678,8 +728,8 @@ impl<T: V + Eq + std::hash::Hash> V for HashSet<T> {
     fn show(&self) -> String {
         list_text(self.iter().map(|x| x.show()))
     }
-    fn canon(&self) -> String {
-        set_canon(self.iter().map(|x| x.canon()).collect())
+    fn canon_m(&self, n: bool) -> String {
+        set_canon(self.iter().map(|x| x.canon_m(n)).collect())
     }
     fn canon_sexp(x: &Sexp) -> Option<String> {
         Some(set_canon(canon_items::<T>(x)?))
@@ -703,8 +753,8 @@ impl<T: V + Ord> V for BTreeSet<T> {
     fn show(&self) -> String {
         list_text(self.iter().map(|x| x.show()))
     }
-    fn canon(&self) -> String {
-        set_canon(self.iter().map(|x| x.canon()).collect())
+    fn canon_m(&self, n: bool) -> String {
+        set_canon(self.iter().map(|x| x.canon_m(n)).collect())
     }
     fn canon_sexp(x: &Sexp) -> Option<String> {
         Some(set_canon(canon_items::<T>(x)?))
@@ -750,8 +800,8 @@ impl<K: V + Eq + std::hash::Hash, W: V> V for HashMap<K, W> {
     fn show(&self) -> String {
         list_text(self.iter().map(|(k, v)| format!("(l {} {})", k.show(), v.show())))
     }
-    fn canon(&self) -> String {
-        map_canon(self.iter().map(|(k, v)| (k.canon(), v.canon())).collect())
+    fn canon_m(&self, n: bool) -> String {
+        map_canon(self.iter().map(|(k, v)| (k.canon_m(n), v.canon_m(n))).collect())
     }
     fn canon_sexp(x: &Sexp) -> Option<String> {
         Some(map_canon(canon_entries::<K, W>(x)?))
@@ -775,8 +825,8 @@ impl<K: V + Ord, W: V> V for BTreeMap<K, W> {
     fn show(&self) -> String {
         list_text(self.iter().map(|(k, v)| format!("(l {} {})", k.show(), v.show())))
     }
-    fn canon(&self) -> String {
-        map_canon(self.iter().map(|(k, v)| (k.canon(), v.canon())).collect())
+    fn canon_m(&self, n: bool) -> String {
+        map_canon(self.iter().map(|(k, v)| (k.canon_m(n), v.canon_m(n))).collect())
     }
     fn canon_sexp(x: &Sexp) -> Option<String> {
         Some(map_canon(canon_entries::<K, W>(x)?))
@@ -801,8 +851,8 @@ macro_rules! ptr_v {
             fn show(&self) -> String {
                 (**self).show()
             }
-            fn canon(&self) -> String {
-                (**self).canon()
+            fn canon_m(&self, n: bool) -> String {
+                (**self).canon_m(n)
             }
             fn canon_sexp(x: &Sexp) -> Option<String> {
                 T::canon_sexp(x)
@@ -836,8 +886,8 @@ macro_rules! tuple_v {
             fn show(&self) -> String {
                 list_text(vec![$(self.$i.show()),+].into_iter())
             }
-            fn canon(&self) -> String {
-                list_text(vec![$(self.$i.canon()),+].into_iter())
+            fn canon_m(&self, n: bool) -> String {
+                list_text(vec![$(self.$i.canon_m(n)),+].into_iter())
             }
             fn canon_sexp(x: &Sexp) -> Option<String> {
                 let a = x.tagged("l")?;
